@@ -29,6 +29,9 @@ pub struct Spec {
     /// the first Keep Alive frame is accepted only this many bytes; the rest not before this time (ms)
     #[serde(default)]
     ka_write_stall: Option<(usize, u64)>,
+    /// the timeout Disconnect frame is accepted only this many bytes; the rest not before this time (ms)
+    #[serde(default)]
+    dc_write_stall: Option<(usize, u64)>,
 }
 
 fn echo_of(s: &str) -> Echo {
@@ -60,6 +63,13 @@ fn build(s: &Spec) -> Case {
         case.transport.writes.push(WriteDev { frame: 3, prog: vec![WStep::Accept(first), WStep::Until(until)] });
     }
     case.horizon_ms = 400_000;
+    if let Some((first, until)) = s.dc_write_stall {
+        // where the timeout Disconnect is in the sequence of clientbound frames is read off the undisturbed run
+        let base = crate::sim::run(&case);
+        if let Some(frame) = base.packets.iter().position(|(_, p)| matches!(p, Pkt::ConfDisconnect { .. })) {
+            case.transport.writes.push(WriteDev { frame, prog: vec![WStep::Accept(first), WStep::Until(until)] });
+        }
+    }
     case
 }
 
@@ -88,14 +98,17 @@ fn judge(s: &Spec, obs: &Obs) -> Vec<(String, String)> {
     // a Keep Alive counts as sent when the transport took its first byte (a socket that stalls in the middle
     // of the frame is not the server's doing)
     let kas: Vec<(Ms, u64)> = obs.packets.iter().zip(obs.packet_started.iter()).filter_map(|((_, p), t0)| if let Pkt::KeepAlive { id } = p { Some((*t0, *id)) } else { None }).collect();
-    let disconnect: Option<(Ms, Value)> = obs.packets.iter().find_map(|(t, p)| if let Pkt::ConfDisconnect { reason } = p { Some((*t, reason.clone())) } else { None });
+    // (like a Keep Alive, the Disconnect counts as sent when the transport took its first byte)
+    let disconnect: Option<(Ms, Value)> = obs.packets.iter().zip(obs.packet_started.iter()).find_map(|((_, p), t0)| if let Pkt::ConfDisconnect { reason } = p { Some((*t0, reason.clone())) } else { None });
     let transfer: Option<(Ms, String, i32)> = obs.packets.iter().find_map(|(t, p)| if let Pkt::Transfer { host, port } = p { Some((*t, host.clone(), *port)) } else { None });
     let end = obs.end_ms;
 
     // K1: a Keep Alive at least every 16 s while in the configuration phase
     let mut marks: Vec<Ms> = vec![t_ack];
     marks.extend(kas.iter().map(|k| k.0));
-    marks.push(end);
+    // (the phase is over for the server once the first byte of the Disconnect is out: how long a stalling socket
+    // then takes to accept the rest is not the server's doing)
+    marks.push(disconnect.as_ref().map(|d| d.0).unwrap_or(end));
     for w in marks.windows(2) {
         if w[1] > w[0] + PERIOD {
             bad("keep-alive-gap", format!("no Keep Alive between {} ms and {} ms (configuration phase entered at {t_ack} ms, ended at {end} ms); keep-alives at {:?}", w[0], w[1], kas.iter().map(|k| k.0).collect::<Vec<_>>()));
@@ -207,7 +220,7 @@ fn specs(thorough: bool) -> Vec<Spec> {
                         continue;
                     }
                     for uns in if thorough { vec![None, Some(5_000u64)] } else { vec![None] } {
-                        v.push(Spec { lat: *lat, ci_after: ci, echo: e.to_string(), unsolicited_every: uns, auth_ms: auth, locale: if ci % 20_000 == 0 { "de_de".into() } else { "en_us".into() }, ka_write_stall: None });
+                        v.push(Spec { lat: *lat, ci_after: ci, echo: e.to_string(), unsolicited_every: uns, auth_ms: auth, locale: if ci % 20_000 == 0 { "de_de".into() } else { "en_us".into() }, ka_write_stall: None, dc_write_stall: None });
                     }
                 }
             }
@@ -218,7 +231,16 @@ fn specs(thorough: bool) -> Vec<Spec> {
     for (lat, until) in [([20_000u64, 20_000, 0], 20_001u64), ([17_000, 0, 40_000], 17_000), ([0, 18_000, 30_000], 18_001), ([16_001, 16_001, 16_001], 16_002)] {
         for e in ["never", "wrong-id", "prompt", "delay-1000", "delay-15000"] {
             for first in [1usize, 5, 9] {
-                v.push(Spec { lat, ci_after: 0, echo: e.into(), unsolicited_every: None, auth_ms: 0, locale: "en_us".into(), ka_write_stall: Some((first, until)) });
+                v.push(Spec { lat, ci_after: 0, echo: e.into(), unsolicited_every: None, auth_ms: 0, locale: "en_us".into(), ka_write_stall: Some((first, until)), dc_write_stall: None });
+            }
+        }
+    }
+    // the socket accepts only part of the timeout Disconnect; meanwhile the routing stage that was running answers
+    // (and further stages follow, or routing is complete): the verdict stands, nothing follows the Disconnect
+    for (lat, until) in [([33_000u64, 20_000, 0], 34_000u64), ([33_000, 20_000, 0], 60_000), ([0, 33_000, 20_000], 34_000), ([0, 0, 33_000], 40_000), ([40_000, 0, 0], 41_000), ([20_000, 13_000, 40_000], 33_500)] {
+        for e in ["never", "wrong-id"] {
+            for first in [1usize, 5] {
+                v.push(Spec { lat, ci_after: 0, echo: e.into(), unsolicited_every: None, auth_ms: 0, locale: "en_us".into(), ka_write_stall: None, dc_write_stall: Some((first, until)) });
             }
         }
     }
@@ -231,16 +253,16 @@ fn specs(thorough: bool) -> Vec<Spec> {
                 if e == "prompt" && pad % 5 != 0 {
                     continue;
                 }
-                v.push(Spec { lat: [50_000, 0, 0], ci_after: 0, echo: e.into(), unsolicited_every: None, auth_ms: 0, locale: loc.clone(), ka_write_stall: None });
+                v.push(Spec { lat: [50_000, 0, 0], ci_after: 0, echo: e.into(), unsolicited_every: None, auth_ms: 0, locale: loc.clone(), ka_write_stall: None, dc_write_stall: None });
             }
         }
     }
     for loc in ["sr_cyrl_rs_\u{441}\u{440}\u{43f}", "de_\u{e9}\u{e9}\u{e9}\u{e9}\u{e9}\u{e9}\u{e9}\u{e9}\u{e9}\u{e9}", "zh_Hant_TW_x_ab\u{e9}\u{e9}"] {
-        v.push(Spec { lat: [0, 50_000, 0], ci_after: 10_000, echo: "never".into(), unsolicited_every: None, auth_ms: 0, locale: loc.into(), ka_write_stall: None });
+        v.push(Spec { lat: [0, 50_000, 0], ci_after: 10_000, echo: "never".into(), unsolicited_every: None, auth_ms: 0, locale: loc.into(), ka_write_stall: None, dc_write_stall: None });
     }
     if !thorough {
         for e in ["prompt", "never", "delay-15000"] {
-            v.push(Spec { lat: [33_000, 0, 0], ci_after: 10_000, echo: e.into(), unsolicited_every: Some(5_000), auth_ms: 0, locale: "en_us".into(), ka_write_stall: None });
+            v.push(Spec { lat: [33_000, 0, 0], ci_after: 10_000, echo: e.into(), unsolicited_every: Some(5_000), auth_ms: 0, locale: "en_us".into(), ka_write_stall: None, dc_write_stall: None });
         }
     }
     v
@@ -312,8 +334,8 @@ pub fn run_with(cli: Cli, extra: &dyn Fn(&Report)) -> ! {
     rep.set("exhaustive", json!(true));
     rep.set("rule", json!("product of adapter latencies {0,8,15.999,16,16.001,33,50 s}^3 (quick: at most two slow adapters), Client Information delay {0,10,16,20,40 s}, echo policy (prompt, delayed by d around the period, never, wrong id, duplicate, first-k-only, unsolicited every 5 s), login duration {0,20 s}; one connection each under virtual time; distinct_nontrivial = distinct timed clientbound traces"));
     rep.sample(json!({"spec": all[0]}));
-    rep.sample(json!({"spec": Spec { lat: [33_000, 0, 0], ci_after: 0, echo: "delay-15999".into(), unsolicited_every: None, auth_ms: 0, locale: "en_us".into(), ka_write_stall: None }, "expect": "Keep Alive at 16 s and 32 s, Transfer at 33 s"}));
-    rep.sample(json!({"spec": Spec { lat: [50_000, 0, 0], ci_after: 0, echo: "wrong-id".into(), unsolicited_every: None, auth_ms: 0, locale: "de_de".into(), ka_write_stall: None }, "expect": "Keep Alive at 16 s, timeout Disconnect (German) at 32 s"}));
+    rep.sample(json!({"spec": Spec { lat: [33_000, 0, 0], ci_after: 0, echo: "delay-15999".into(), unsolicited_every: None, auth_ms: 0, locale: "en_us".into(), ka_write_stall: None, dc_write_stall: None }, "expect": "Keep Alive at 16 s and 32 s, Transfer at 33 s"}));
+    rep.sample(json!({"spec": Spec { lat: [50_000, 0, 0], ci_after: 0, echo: "wrong-id".into(), unsolicited_every: None, auth_ms: 0, locale: "de_de".into(), ka_write_stall: None, dc_write_stall: None }, "expect": "Keep Alive at 16 s, timeout Disconnect (German) at 32 s"}));
     rep.assume("time is tokio's paused clock; real-valued time is represented by the +-1 ms neighbours of the period");
     rep.assume("an echo emitted at exactly the instant the next Keep Alive is due, and routing completing at exactly that instant, are outside the statement and not judged");
     rep.assume("'before the next one is due' is read off the observed log: a drop is only judged wrong if the echo was emitted strictly before the Disconnect; a silent client must be gone 16 s after the unechoed Keep Alive");
